@@ -103,3 +103,43 @@ func OracleNonces(raw Raw) map[string]map[uint64]uint32 {
 	}
 	return out
 }
+
+// OracleSlot is one signer slot of a multi-signer price transaction: the public key attached in the slot and the
+// key that actually produces the slot's signature.
+type OracleSlot struct {
+	Pub  *ConsKey
+	Sign *ConsKey
+}
+
+// OracleTxMulti builds a fee-less price transaction with one signer slot per entry of slots (zero slots: no signer
+// info and no signature at all).
+func (c *Chain) OracleTxMulti(slots []OracleSlot, msgs ...sdk.Msg) ([]byte, error) {
+	txb := c.TxCfg.NewTxBuilder()
+	if err := txb.SetMsgs(msgs...); err != nil {
+		return nil, err
+	}
+	txb.SetGasLimit(0)
+	mode := signing.SignMode_SIGN_MODE_DIRECT
+	sigs := make([]signing.SignatureV2, len(slots))
+	for i, sl := range slots {
+		sigs[i] = signing.SignatureV2{PubKey: sl.Pub.Priv.PubKey(), Data: &signing.SingleSignatureData{SignMode: mode}, Sequence: 0}
+	}
+	if err := txb.SetSignatures(sigs...); err != nil {
+		return nil, err
+	}
+	bytesToSign, err := c.TxCfg.SignModeHandler().GetSignBytes(mode, authsigning.SignerData{ChainID: c.ChainID}, txb.GetTx())
+	if err != nil && len(slots) > 0 {
+		return nil, err
+	}
+	for i, sl := range slots {
+		sigBz, err := sl.Sign.Priv.Sign(bytesToSign)
+		if err != nil {
+			return nil, err
+		}
+		sigs[i].Data = &signing.SingleSignatureData{SignMode: mode, Signature: sigBz}
+	}
+	if err := txb.SetSignatures(sigs...); err != nil {
+		return nil, err
+	}
+	return c.TxCfg.TxEncoder()(txb.GetTx())
+}
